@@ -90,6 +90,11 @@ CHECKS = {
     technique='TLA+/TLC: validation of the arrays returned by the real StilFile.tests()/responses()/tests_loc() against the meaning of the abstract STIL description (StilT.tla), one TLC state per pattern',
     text='Abstract STIL descriptions - 1-2 scan chains over the flip-flops in scrambled order, inversion markers at every kind of position (before the first cell, between cells, after the last, consecutive), shuffled signal groups, pattern sets with loads, unloads, capture calls with/without clock pulse and optional launch calls, parameter strings split over lines - are rendered to STIL, parsed by the real parser and assembled for circuits whose flip-flops sit at scrambled node positions. TLC recomputes every array entry: first shifted bit = cell nearest scan-out, inversion parity from scan-in (loads) / scan-out (unloads), _pi/_po strings through the groups onto interface positions, and for launch-on-capture the per-input/per-flip-flop transition with the next state obtained from the TLA+ netlist semantics.',
     note='Flip-flop kinds upper-case DFF. Unload strings over H/L/X; tests_loc judged for fully specified 0/1 data with a clock pulse in the capture call. STIL renderer of the harness is trusted. Trusted: TLC, JSON reader, projection.'),
+ 'C20': dict(
+    cat='model_checking', ref='DESIGN.md §4 C20, §3 (DefT)',
+    technique='TLA+/TLC: the routing cursor machine of DefT.tla is folded over the abstract wires and compared with the listings of the real DefNet.wires/vias; extracted sections compared field by field with the abstract file',
+    text='Seeded abstract DEF files with all supported sections and special/regular nets of 0..3 wire segments (point sequences of up to 6 elements over every wildcard pattern, vias with and without orientation, DO n BY m STEP arrays) are rendered and parsed by the real parser. TLC runs the cursor machine (a * coordinate keeps the previous value, a via sits at the cursor, arrays expand to n x m positions) and requires the per-layer wire listings (width, resolved points) and per-type via listings of every net - special and regular alike - to equal the fold, and units, die area, rows, tracks, via definitions, components, pins and connectivity to equal the file.',
+    note='Mostly extraction fidelity (DESIGN §7); the cursor machine is what the model decides. Grammar subset: non-negative coordinates, two-number points, ROUTED wiring. Renderer and section normaliser of the harness are trusted.'),
  'C07': dict(
     cat='model_checking', ref='DESIGN.md §4 C07, §3 (Schedule, ThreadOrder, SchedReplay)',
     technique='TLA+/TLC: model run of Schedule.tla on the published schedule (all Begin/End interleavings for narrow levels, level-wise static form for all); TLC-simulated thread orders (ThreadOrder.tla) replayed into the real simulators, judged by SchedReplay.tla',
